@@ -13,3 +13,5 @@ OBLIGATIONS = [K.WIG_GUARDS, K.BED_GUARDS, K.IDMAP, K.CHROM_ORDER, K.PARSE_ERROR
                K.SOURCE_SIBS, K.JOIN_RESULTS, K.ZOOM_LIST]
 OBLIGATIONS = OBLIGATIONS + [K.PROCESSOR_ARGS]
 OBLIGATIONS = OBLIGATIONS + [K.PROCESS_DATA]
+# the zoom tiling loops: the span end must not overflow u32 (D19: panic / hang near u32::MAX) and the cursor must advance
+OBLIGATIONS = OBLIGATIONS + [K.WIG_TILING, K.BED_TILING]
